@@ -308,13 +308,14 @@ FREE_FIELD_DIGITS = 6  # |v| < 1e6 for fixed-point fields that have no width (fr
 
 
 def leading_blank_guaranteed(f: Field, int_digits=10):
-    """The printed field always starts with a blank (stated assumptions: 2-digit exponents; |ints| < 10**int_digits)."""
+    """The printed field always starts with a blank (stated assumption: |ints| < 10**int_digits).  Exponents may have
+    three digits (|x| < 1e-99 or >= 1e100 are legitimate doubles), so a scientific field needs width >= precision + 9."""
     p = f.parsed()
     if p is None or p["align"] in ("<", "^") or p["zero"] or (p["fill"] not in (None, " ")):
         return False
     w = int(p["width"] or 0)
     if f.kind == "float" and p["type"] in ("e", "E") and p["prec"] is not None:
-        return w >= int(p["prec"]) + 8  # sign, d, '.', prec digits, E, sign, 2 digits = prec + 7
+        return w >= int(p["prec"]) + 9  # sign, d, '.', prec digits, E, sign, 3 digits = prec + 8
     if f.kind in ("int",) or (f.kind == "default" and w >= 12):
         return w >= int_digits + 2
     return False
